@@ -5,6 +5,7 @@ Cancellable = {}
 MaxGen = 1
 Kinds = {"err"}
 MaxFlips = 0
+Reswap = FALSE
 Mutant = 4
 INIT Init
 NEXT Next
